@@ -37,6 +37,7 @@ from deep.logging import logging
 from deep.api.tracepoint import WatchResult, Variable
 from deep.processor.variable_set_processor import VariableSetProcessor, VariableCacheProvider, \
     VariableProcessorConfig
+from deep.processor.variable_processor import safe_str
 from deep.utils import str2bool
 
 if TYPE_CHECKING:
@@ -104,7 +105,9 @@ class ActionContext(abc.ABC):
             logging.exception("Error evaluating watch %s", watch)
             # what was collected of this watch is thrown away, so are the ids it used
             self.var_cache.rollback(mark)
-            return WatchResult(source, watch, None, str(e)), {}, str(e)
+            # (the text of an exception is user code too: a KeyError gives the repr of the key)
+            error = safe_str(e)
+            return WatchResult(source, watch, None, error), {}, error
 
     def process_capture_variable(self, name: str, variable: any) -> Tuple[WatchResult, Dict[str, Variable], str]:
         """
